@@ -6,6 +6,7 @@
 #include "vpch.h"
 #include "vcommon.h"
 #include "vsched.h"
+#include "vexplore.h"
 #include <hgraph/lib/testing/runtime_support.h>
 #include <hgraph/runtime/push_source_node.h>
 #include <climits>
@@ -68,19 +69,33 @@ namespace
         void on_stop_graph_failed(const GraphView &) override { W->stopped = true; }
     };
 
-    NodeBuilder make_sink(const TSValueTypeMetaData &input_schema, const TSValueTypeMetaData &input_ts, bool burst)
+    NodeBuilder make_sink(const TSValueTypeMetaData &input_schema, const TSValueTypeMetaData &input_ts, bool burst, bool dict)
     {
         NodeTypeMetaData schema;
         schema.display_name = "c16_sink";
         schema.input_schema = &input_schema;
         schema.node_kind = NodeKind::Sink;
         NodeCallbacks callbacks;
-        callbacks.evaluate = [burst](const NodeView &view, DateTime evaluation_time) {
+        callbacks.evaluate = [burst, dict](const NodeView &view, DateTime evaluation_time) {
             auto root = view.input(evaluation_time);
             auto bundle = root.as_bundle();
             auto input = bundle[0];
             const long t = static_cast<long>(evaluation_time.time_since_epoch().count());
-            if (burst)
+            if (dict)
+            {
+                // conflating dictionary: record every key present in the merged state the first time it is seen
+                Value current{input.value()};
+                const auto map = current.view().as_map();
+                for (long k = 1; k <= 9; ++k)
+                {
+                    Value key{Int{k}};
+                    if (!map.contains(key.view())) continue;
+                    bool seen = false;
+                    for (auto &d : W->delivered) if (d.value == k) seen = true;
+                    if (!seen) W->delivered.push_back({t, W->cycles, k});
+                }
+            }
+            else if (burst)
             {
                 auto tuple = input.value().as_list();
                 for (std::size_t i = 0; i < tuple.size(); ++i) W->delivered.push_back({t, W->cycles, static_cast<long>(tuple[i].checked_as<Int>())});
@@ -90,7 +105,7 @@ namespace
         return NodeBuilder::native(std::move(schema), std::move(callbacks), testing::single_input_endpoint(input_schema, input_ts));
     }
 
-    struct ExecResult { std::optional<std::string> violation; std::string outcome; };
+    using vs::ExecResult;
 
     std::vector<long> script_values(const World &w)
     {
@@ -105,14 +120,20 @@ namespace
         World world = config;
         W = &world;
         const bool burst = world.policy == 'b';
-        const auto *ts_out = burst ? ts_type<TS<HomogeneousTuple<Int>>>() : ts_type<TS<Int>>();
+        const bool dict = world.policy == 'd';
+        const auto *ts_out = burst ? ts_type<TS<HomogeneousTuple<Int>>>() : dict ? ts_type<TSD<Int, TS<Int>>>() : ts_type<TS<Int>>();
         const auto *input_schema = testing::single_input_schema(*ts_out);
         PushSourcePolicy policy = world.policy == 'q' ? make_push_source_queue_policy(*ts_out, world.capacity)
                                 : burst ? make_push_source_burst_policy(*ts_out, world.capacity)
                                         : make_push_source_conflating_policy(*ts_out);
+        auto payload = [dict](char kind, long v) -> Value {
+            if (!dict) return Value{Int{v}};
+            if (kind == 'x') return dict_delta<Int, TS<Int>>({}, {Int{v}});          // removal of a key that is not there: a legal no-op
+            return dict_delta<Int, TS<Int>>({{Int{v}, Int{v}}});
+        };
         GraphBuilder builder;
         builder.add_node(make_push_source_node(*ts_out, std::move(policy), [](PushSourceSender s) { W->sender = std::move(s); W->sender_ready = true; }));
-        builder.add_node(make_sink(*input_schema, *ts_out, burst));
+        builder.add_node(make_sink(*input_schema, *ts_out, burst, dict));
         builder.add_edge(GraphEdge{.source_node = make_graph_edge_source(0), .source_path = {}, .target_node = 1, .target_path = {0}});
         const DateTime start_time = DateTime{std::chrono::microseconds{1'700'000'000'000'000LL}};
         const std::int64_t start_ns = 1'700'000'000'000'000LL * 1000;
@@ -122,6 +143,9 @@ namespace
         auto *executor = new GraphExecutorValue(eb.make_executor());
         world.executor = executor;
 
+        // payloads are built before the controlled run: constructing a Value takes type-registry locks that are not the subject here
+        std::vector<std::vector<Value>> payloads(2);
+        for (int p = 0; p < world.producers; ++p) for (auto &op : world.scripts[p]) payloads[static_cast<std::size_t>(p)].push_back(payload(op[0], std::stol(op.substr(1))));
         std::vector<std::function<void()>> bodies;
         bodies.push_back([&] {
             try { executor->view().run(); }
@@ -131,13 +155,15 @@ namespace
         for (int p = 0; p < world.producers; ++p)
             bodies.push_back([&, p] {
                 vs::gate([&] { return world.sender_ready || world.run_returned; });
-                for (auto &op : world.scripts[p])
+                for (std::size_t oi = 0; oi < world.scripts[p].size(); ++oi)
                 {
+                    auto &op = world.scripts[p][oi];
+                    Value &pv = payloads[static_cast<std::size_t>(p)][oi];
                     Send s; s.producer = p; s.kind = op[0]; s.value = std::stol(op.substr(1));
                     s.call_step = step(); s.dequeue_started_at_call = world.dequeue_started;
                     s.stopped_before_call = world.stopped || world.run_returned;
                     ++world.inflight;
-                    try { s.result = s.kind == 't' ? world.sender.try_send(Int{s.value}) : world.sender.send_blocking(Int{s.value}); }
+                    try { s.result = s.kind == 'b' ? world.sender.send_blocking(std::move(pv)) : world.sender.try_send(std::move(pv)); }
                     catch (const std::exception &e) { if (world.error.empty()) world.error = std::string{"send threw: "} + e.what(); s.result = false; }
                     --world.inflight;
                     s.return_step = step();
@@ -154,7 +180,18 @@ namespace
                 executor->view().request_stop();
             });
         vs::S().on_expiry = [&](bool forced) {
-            if (forced && !world.stopping && !world.stop_requested && !world.run_returned && (world.accepted_returned + world.inflight) > static_cast<long>(world.delivered.size()) && world.policy != 'c')
+            if (!forced || world.stopping || world.stop_requested || world.run_returned) return;
+            if (world.policy == 'd')
+            {
+                for (auto &sd : world.sends)
+                {
+                    if (!sd.result || sd.kind == 'x') continue;
+                    bool seen = false;
+                    for (auto &d : world.delivered) if (d.value == sd.value) seen = true;
+                    if (!seen) world.forced_expiry_with_pending = true;
+                }
+            }
+            else if (world.policy != 'c' && (world.accepted_returned + world.inflight) > static_cast<long>(world.delivered.size()))
                 world.forced_expiry_with_pending = true;
         };
         trace_out = vs::run_controlled(std::move(bodies), prefix, start_ns);
@@ -186,19 +223,20 @@ namespace
             if (pos.count(d.value)) { r.violation = "value " + std::to_string(d.value) + " was delivered twice"; return r; }
             pos[d.value] = i;
             if (std::find(all_values.begin(), all_values.end(), d.value) == all_values.end()) { r.violation = "value " + std::to_string(d.value) + " was delivered but never sent"; return r; }
+            if (by_value.count(d.value) && by_value[d.value]->kind == 'x') { r.violation = "key " + std::to_string(d.value) + " appeared although it was only ever removed"; return r; }
             if (by_value.count(d.value) && !by_value[d.value]->result) { r.violation = "value " + std::to_string(d.value) + " was delivered although its send was refused"; return r; }
             if (d.cycle != last_cycle)
             {
                 if (d.time <= last_t) { r.violation = "deliveries are not in strictly increasing engine times (" + std::to_string(last_t) + " then " + std::to_string(d.time) + ")"; return r; }
             }
-            else if (!burst) { r.violation = "two values (" + std::to_string(world.delivered[i - 1].value) + ", " + std::to_string(d.value) + ") were delivered in one engine cycle"; return r; }
+            else if (!burst && !dict) { r.violation = "two values (" + std::to_string(world.delivered[i - 1].value) + ", " + std::to_string(d.value) + ") were delivered in one engine cycle"; return r; }
             last_t = d.time; last_cycle = d.cycle;
         }
         // acceptance order: same producer in program order, or A returned before B was called  =>  A is delivered before B,
         // and B delivered implies A delivered (prefix). Conflation may drop A (superseded) but never reorders.
         for (auto &a : world.sends) for (auto &b : world.sends)
         {
-            if (&a == &b || !a.result || !b.result) continue;
+            if (&a == &b || !a.result || !b.result || dict) continue;
             const bool a_before_b = (a.producer == b.producer && a.call_step < b.call_step) || a.return_step < b.call_step;
             if (!a_before_b) continue;
             if (world.policy != 'c' && pos.count(b.value) && !pos.count(a.value)) { r.violation = "value " + std::to_string(b.value) + " was delivered but the earlier accepted value " + std::to_string(a.value) + " was not (not a prefix of the acceptance order)"; return r; }
@@ -210,7 +248,7 @@ namespace
             if (sd.result && sd.stopped_before_call) { r.violation = "value " + std::to_string(sd.value) + " was accepted after the source had stopped"; return r; }
             if (sd.result || sd.stopping_before_return) continue;
             if (sd.kind == 'b') { r.violation = "send_blocking(" + std::to_string(sd.value) + ") failed although the source had not stopped"; return r; }
-            if (world.capacity == 0 || world.policy == 'c') { r.violation = "try_send(" + std::to_string(sd.value) + ") was refused by an unbounded source that had not stopped"; return r; }
+            if (world.capacity == 0 || world.policy == 'c' || dict) { r.violation = "try_send(" + std::to_string(sd.value) + ") was refused by an unbounded source that had not stopped"; return r; }
             // upper bound of the queue occupancy at any moment of the call: accepted sends that began before it returned,
             // minus pops certainly completed before it began (source evaluations begun strictly earlier, less the one possibly in flight)
             long accepted_by_return = 0;
@@ -227,7 +265,7 @@ namespace
         {
             if (world.policy != 'c')
             {
-                for (auto &sd : world.sends) if (sd.result && !pos.count(sd.value)) { r.violation = "accepted value " + std::to_string(sd.value) + " was never delivered although the run was neither stopped nor cut by its end time"; return r; }
+                for (auto &sd : world.sends) if (sd.result && sd.kind != 'x' && !pos.count(sd.value)) { r.violation = "accepted value " + std::to_string(sd.value) + " was never delivered although the run was neither stopped nor cut by its end time"; return r; }
             }
             else
             {
@@ -247,80 +285,8 @@ namespace
         return r;
     }
 
-    int option_cost(const vs::ChoicePoint &cp, std::size_t index)
-    {
-        if (index == 0) return 0;
-        const int o = cp.options[index];
-        if (o >= 2000) return 0;                               // which waiter a signal wakes: the implementation's free choice
-        if (cp.current_enabled) return 1;                      // preemption of a runnable thread (or a timer firing under it)
-        if (o >= 1000 && cp.options[0] < 1000) return 1;       // a timer firing although some thread could run
-        return 0;                                              // the running thread blocked: any continuation is free
-    }
-
-    FILE *dump_file() { static FILE *f = getenv("VS_DUMP") ? fopen(getenv("VS_DUMP"), "w") : nullptr; return f; }
-    struct Explorer
-    {
-        World config;
-        int bound{2};
-        std::uint64_t executions{0}, max_choice_points{0}, cap{2000000};
-        std::set<std::string> outcomes;
-        std::optional<std::string> violation;
-        std::vector<int> violating_choices;
-        bool capped{false};
-        verif::Ctx *ctx{nullptr};
-        std::string desc, root_outcome;
-        std::uint64_t top_counter{0};
-
-        void explore(const std::vector<int> &prefix, int depth = 0)
-        {
-            if (violation || capped) return;
-            if (executions >= cap) { capped = true; return; }
-            std::vector<vs::ChoicePoint> trace;
-            ExecResult r = execute(config, prefix, trace);
-            const bool is_root = prefix.empty();
-            if (is_root) root_outcome = r.outcome;
-            // executions at depth < 2 are repeated by every shard (to find their children) and counted by shard 0 only
-            const bool counted = depth >= 2 || !ctx || ctx->shard == 0;
-            if (counted) ++executions;
-            if (FILE *dump = dump_file())
-            {
-                std::string line;
-                for (auto &cp : trace) { line += cp.kind; line += ':'; for (int o : cp.options) line += std::to_string(o) + "."; line += "=" + std::to_string(cp.chosen_index) + " "; }
-                fprintf(dump, "%s || %s || %s\n", line.c_str(), r.outcome.c_str(), r.violation ? r.violation->c_str() : "ok");
-            }
-            max_choice_points = std::max<std::uint64_t>(max_choice_points, trace.size());
-            outcomes.insert(r.outcome);
-            if (ctx && counted) { ctx->transitions += trace.size(); ctx->state(desc + "#" + r.outcome); if (r.outcome != root_outcome) ctx->nontriv(desc + "#" + r.outcome); }
-            if (r.violation) { violation = r.violation; violating_choices.clear(); for (auto &cp : trace) violating_choices.push_back(cp.chosen_index); return; }
-            int used = 0;
-            std::vector<int> base;
-            for (std::size_t i = 0; i < trace.size(); ++i)
-            {
-                const vs::ChoicePoint &cp = trace[i];
-                if (i >= prefix.size())
-                    for (std::size_t alt = 1; alt < cp.options.size(); ++alt)
-                    {
-                        if (used + option_cost(cp, alt) > bound) continue;
-                        if (depth == 1 && ctx && !ctx->mine(top_counter++)) continue;   // shards split the second-level subtrees of every configuration
-                        std::vector<int> child = base;
-                        child.push_back(static_cast<int>(alt));
-                        explore(child, depth + 1);
-                        if (violation || capped) return;
-                    }
-                used += option_cost(cp, static_cast<std::size_t>(cp.chosen_index));
-                base.push_back(cp.chosen_index);
-            }
-        }
-    };
-
     // desc: pol=<q|b|c>;cap=<n>;p=<script0>/<script1>;stop=<0|1>;bound=<b>[;prefix=<a,b,c>]
-    std::vector<std::string> split(const std::string &s, char sep)
-    {
-        std::vector<std::string> out; std::string cur;
-        for (char c : s) { if (c == sep) { out.push_back(cur); cur.clear(); } else cur += c; }
-        out.push_back(cur);
-        return out;
-    }
+    using vs::split;
     World parse_config(const std::string &desc, int &bound, std::vector<int> &prefix, bool &has_prefix)
     {
         World w;
@@ -346,14 +312,20 @@ namespace
     }
 }  // namespace
 
+static void warm_up();
 void verif_init()
 {
     stdlib::register_standard_operators();
+    vs::S().warmup = [] { warm_up(); };
+    warm_up();
+}
+static void warm_up()
+{
     // one throw-away execution so that lazily built process-wide singletons exist before the explored executions
     int b; std::vector<int> p; bool hp;
     std::vector<vs::ChoicePoint> trace;
     // (worker threads persist across executions and the runtime keeps per-thread type caches: every worker sends once here)
-    for (const char *d : {"pol=q;cap=2;p=t1,b2/t3,b4;stop=1", "pol=b;cap=2;p=t1,b2/t3,b4;stop=1", "pol=c;cap=0;p=t1,b2/t3,b4;stop=1", "pol=q;cap=1;p=b1,b2/b3,b4;stop=0"}) (void)execute(parse_config(d, b, p, hp), {}, trace);
+    for (const char *d : {"pol=q;cap=2;p=t1,b2/t3,b4;stop=1", "pol=b;cap=2;p=t1,b2/t3,b4;stop=1", "pol=c;cap=0;p=t1,b2/t3,b4;stop=1", "pol=d;cap=0;p=t1,x9,b2/x8,t3,b4;stop=1", "pol=q;cap=1;p=b1,b2/b3,b4;stop=0"}) (void)execute(parse_config(d, b, p, hp), {}, trace);
 }
 
 std::optional<std::string> verif_run_case(verif::Ctx &, const std::string &desc)
@@ -361,9 +333,10 @@ std::optional<std::string> verif_run_case(verif::Ctx &, const std::string &desc)
     int bound = 2; std::vector<int> prefix; bool has_prefix = false;
     World w = parse_config(desc, bound, prefix, has_prefix);
     if (has_prefix) { std::vector<vs::ChoicePoint> trace; return execute(w, prefix, trace).violation; }
-    Explorer ex; ex.config = w; ex.bound = bound;
+    vs::Explorer ex; ex.bound = bound;
+    ex.exec = [&](const std::vector<int> &p, std::vector<vs::ChoicePoint> &t) { return execute(w, p, t); };
     ex.explore({});
-    if (getenv("VERIF_STATS")) fprintf(stderr, "executions=%llu outcomes=%zu max_cp=%llu shared=%zu\n", (unsigned long long)ex.executions, ex.outcomes.size(), (unsigned long long)ex.max_choice_points, vs::S().shared.size());
+    if (getenv("VERIF_STATS")) fprintf(stderr, "executions=%llu outcomes=%zu max_cp=%llu\n", (unsigned long long)ex.executions, ex.outcomes.size(), (unsigned long long)ex.max_choice_points);
     return ex.violation;
 }
 
@@ -372,6 +345,14 @@ void verif_enumerate(verif::Ctx &ctx)
     const bool th = ctx.thorough();
     ctx.max_samples = 200;
     std::vector<std::string> configs;
+    for (const char *p : {"t1", "x9,t1", "x9,t1,t2", "x9/t1", "t1,x9/b2", "x9,b1/x8,t2"})
+        for (int stop : {0, 1})
+        {
+            const std::string ps = p;
+            const int sends = static_cast<int>(std::count(ps.begin(), ps.end(), 't') + std::count(ps.begin(), ps.end(), 'b') + std::count(ps.begin(), ps.end(), 'x'));
+            const bool small = sends <= 2 || (stop == 0 && sends <= 3);
+            configs.push_back(std::string{"pol=d;cap=0;p="} + ps + ";stop=" + std::to_string(stop) + ";bound=" + std::to_string(th ? (small ? 3 : 2) : (small ? 2 : 1)));
+        }
     for (const char *pol : {"q", "b", "c"})
         for (std::size_t cap : {std::size_t{1}, std::size_t{2}, std::size_t{0}})
             for (const char *p : {"t1", "b1,b2", "t1,t2", "t1/t2", "b1/b2", "b1,b2/t3", "t1,b2/b3", "b1,b2/b3,b4", "b1,b2,b3/b4"})
@@ -389,28 +370,7 @@ void verif_enumerate(verif::Ctx &ctx)
     {
         int b = 2; std::vector<int> prefix; bool hp = false;
         World w = parse_config(desc, b, prefix, hp);
-        Explorer ex; ex.config = w; ex.bound = b; ex.ctx = &ctx; ex.desc = desc; ex.cap = th ? 3000000 : 300000;
-        ex.explore({});
-        ctx.evaluations += ex.executions;
-        ctx.traces += ex.executions;
-        ctx.count("executions", ex.executions);
-        if (ctx.shard == 0) ctx.count("configs");
-        if (ctx.shard == 0) ctx.counters["max_choice_points_in_one_execution"] = std::max<std::uint64_t>(ctx.counters["max_choice_points_in_one_execution"], ex.max_choice_points);
-        if (ex.capped) { ctx.capped = true; ctx.cap_note = "execution cap hit for " + desc; }
-        ctx.sample("configs", desc + " => " + std::to_string(ex.executions) + " executions in this shard, " + std::to_string(ex.outcomes.size()) + " distinct observable histories");
-        if (ex.violation)
-        {
-            std::string pf;
-            for (std::size_t i = 0; i < ex.violating_choices.size(); ++i) pf += (i ? "," : "") + std::to_string(ex.violating_choices[i]);
-            const std::string rdesc = desc + ";prefix=" + pf;
-            // determinism obligation: the recorded schedule must fail identically when replayed
-            int b2; std::vector<int> p2; bool hp2;
-            World w2 = parse_config(rdesc, b2, p2, hp2);
-            std::vector<vs::ChoicePoint> t2;
-            ExecResult again = execute(w2, p2, t2);
-            if (!again.violation || *again.violation != *ex.violation) throw verif::HarnessError("schedule is not reproducible: " + rdesc + " first: " + *ex.violation + " replay: " + (again.violation ? *again.violation : std::string{"pass"}));
-            ctx.violation(rdesc, *ex.violation, ex.violation->substr(0, 48));
-        }
+        vs::explore_config(ctx, desc, b, th ? 30000000 : 3000000, [&](const std::vector<int> &p, std::vector<vs::ChoicePoint> &t) { return execute(w, p, t); });
     }
 }
 
